@@ -116,6 +116,29 @@ def runWritesCase (cfgF pathF lineF srcF envF : String) : String :=
            | (_, .unmodelled w) => "unmodelled " ++ w))
      | none => "unmodelled env")
   | _, _ => "unmodelled parse"
+/-- `numf <x> (<namehex> <arg|->)+`: the pipeline `x | f1: a1 | f2 …`, its value and its rendering -/
+def runPipeline (impls : Bytes → Option FilterImpl) : GoVal → List String → Res Cause GoVal
+  | v, name :: arg :: rest =>
+    let args : Option (List GoVal) := if arg == "-" then some [] else (GoVal.parse arg).map fun a => [a]
+    match args with
+    | none => .unmodelled "parse"
+    | some as => (evalFilter impls (hexDecode name) v as).bind fun r => runPipeline impls r rest
+  | v, _ => .ok v
+
+def runNumfCase (x : String) (steps : List String) : String :=
+  match GoVal.parse x with
+  | none => "unmodelled parse"
+  | some v =>
+    match runPipeline (lookupImpl allFilterImpls) (viaValue v) steps with
+    | .ok r =>
+      match writeObject r with
+      | .ok t => "ok " ++ r.enc ++ " " ++ hexField t
+      | .err c => "err " ++ c.kind
+      | .panic _ => "panic"
+      | .unmodelled w => "unmodelled " ++ w
+    | .err c => "err " ++ c.kind
+    | .panic _ => "panic"
+    | .unmodelled w => "unmodelled " ++ w
 
 def runCase (line : String) : String :=
   match line.splitOn " " with
@@ -133,6 +156,7 @@ def runCase (line : String) : String :=
     | some x => x.enc
     | none => "unmodelled parse"
   | "filter" :: name :: vals => runFilterCase name vals
+  | "numf" :: x :: steps => runNumfCase x steps
   | ["sprint", v] =>
     match GoVal.parse v with
     | some x => showBytesRes (sprint x)
